@@ -144,6 +144,28 @@ def resolution_grid():
     return out
 
 
+def fixed_expectation_programs():
+    """[(name, source, expectation)]: the scenario bodies in every wrapper, and the resolution grid - programs whose printed values say
+    which variable every access reached, with the expectation built from the scoping rule (also run by C04: 'every variable access reads
+    or writes exactly the variable the source names')."""
+    out = []
+    for i, (body, expected) in enumerate(BODIES):
+        v = wrap_variants(body)
+        v["toplevel"] = "\n".join(body) + "\n"
+        for k, src in v.items():
+            out.append(("scenario%d:%s" % (i, k), src, ("ok", list(expected))))
+    return out + resolution_grid()
+
+
+def meets(o, exp):
+    """o = progs.canon_step(result)"""
+    if exp[0] == "ok":
+        return o[0] == "ok" and list(o[2]) == list(exp[1])
+    if exp[0] == "compile":
+        return o[0] == "err" and o[1] == "CompileError" and len(o[3]) == 1 and exp[1] in o[3][0] and not o[2]
+    return o[0] == "err" and o[1] == "NameError" and not o[2]
+
+
 def local_closure_body(rng):
     return BODIES[rng.below(len(BODIES))]
 
